@@ -816,3 +816,17 @@ Proof.
     pose proof (xb_view_enough N (rev v) bytes []) as G. rewrite zlen_rev in G. specialize (G ltac:(unfold zlen at 1; simpl; lia)).
     destruct (xb_loop (cb_view_back N) (rev v) bytes []); simpl; auto.
 Qed.
+
+(* the front callback never holds more than N entries *)
+Lemma cb_view_len N v : forall bytes a, zlen a <= N ->
+  match xf_loop (cb_view_front N) v bytes a with XDone _ _ a' => zlen a' <= N | XNeg _ a' => zlen a' <= N | XOob => True end.
+Proof.
+  induction v as [|e v IH]; intros bytes a H; simpl; [exact H|].
+  unfold cb_view_front. destruct (zlen a =? N) eqn:C.
+  - destruct (bytes <=? iv_len e); exact H.
+  - apply Z.eqb_neq in C. assert (H2 : zlen (a ++ [mkiov (iv_id e) (iv_off e) bytes]) <= N) by (rewrite zlen_app; unfold zlen at 2; simpl; lia).
+    assert (H3 : zlen (a ++ [mkiov (iv_id e) (iv_off e) (iv_len e)]) <= N) by (rewrite zlen_app; unfold zlen at 2; simpl; lia).
+    destruct (bytes <=? iv_len e).
+    + destruct (iv_len e - bytes =? 0); exact H2.
+    + apply IH. exact H3.
+Qed.
